@@ -50,7 +50,7 @@ pub fn spec() -> PropSpec<Case> {
     assumptions: &[
       "same-attribute proviso by construction; no redirect cycles (C14 owns those); is_dynamic and skip_dynamic_deps at their defaults; no configured imports for code-only graphs",
       "segment roots are never externals that stand for an asset import (a root carries no attribute)",
-      "(b) is checked only when no segment root is a root of the original; the `packages` table and `roots` are not compared; the direct build gets the same options and configured imports",
+      "(b) is checked whenever some segment root is not a root of the original (otherwise segment() documents a plain clone); the `packages` table is not compared; the direct build gets the same options and configured imports",
       "a divergence on a specifier whose acceptance depends on the request context (unknown / JSON media type) is reported once under its own signature",
     ],
     crash_is_violation: false,
@@ -172,8 +172,15 @@ pub fn check(case: &Case, _tier: Tier) -> Outcome {
   }
 
   // (b) equality with a direct build
-  let overlaps = seg_roots.iter().any(|r| orig.roots.contains(r));
-  if !overlaps {
+  // segment() documents a clone shortcut when *all* requested roots are roots
+  // of the original; in every other case it is the closure of the given roots
+  let shortcut = seg_roots.iter().all(|r| orig.roots.contains(r));
+  if !shortcut {
+    let sr: Vec<String> = seg.roots.iter().map(|r| r.to_string()).collect();
+    let er: Vec<String> = seg_roots.iter().map(|r| r.to_string()).collect();
+    if sr != er {
+      o.violate("C18/segment-roots", format!("segment roots {sr:?}, requested {er:?}"));
+    }
     let roots: Vec<String> = seg_roots.iter().map(|r| r.to_string()).collect();
     let (direct, _) = build_simple(&b.world, &roots, &b.imports, &b.opts);
     let diffs =
